@@ -69,7 +69,10 @@ def run(ctx, pool):
         "events": hist, "outcomes": stats["outcomes"], "max_evaluations_in_one_call": stats.get("max_n"), "clauses": CLAUSES,
         "samples": [tw.traces[0], tw.traces[len(tw.traces) // 2][:6]],
     }
-    res["required_events"] = {k: hist.get(k, 0) for k in ("Call", "Eval", "End", "Twin")}
+    res["required_events"] = {k: hist.get(k, 0) for k in ("Call", "End", "Twin")}
+    # the iteration is observed through the public per-composition method; a solver that no longer goes through it is still decided
+    # (fluxes at their own composition, CPU-time guard), with the clauses on single evaluations not exercised
+    res["coverage"]["iterations_observable"] = hist.get("Eval", 0) > 0
     res["trace_lookup"] = lambda v: tw.traces[v["record"]["t"]][:80]
     return res
 
